@@ -27,12 +27,12 @@ ACTIONS = ("VerifyPrev", "GetUdTyped", "NodeCall1", "NodeCall2", "Onboard", "Han
 MODEL_BUGS = (("notweak", "AlteredFails"), ("dropfirst", "GenuineVerifies"), ("maxpages", "GenuineGathers"),
               ("swapmsg", "GenuineVerifies"), ("wrongtweak", "GenuineVerifies"), ("nobind", "AlteredFails"),
               ("nohealth", "AlteredFails"), ("udslice", "GenuineGathers"), ("noidcheck", "NodeBad"),
-              ("nostatus", "NodeBad"), ("derpad", "GenuineVerifies"), ("setdefault", "GenuineVerifies"))
+              ("nostatus", "NodeBad"), ("derpad", "GenuineVerifies"), ("setdefault", "GenuineVerifies"), ("rstrip", "GenuineVerifies"))
 NEGATIVES = ("NeverVerifies", "NeverGatherFails", "NeverVerifyFails", "NeverLegacy", "NeverFourPages",
              "NeverNodeOk", "NeverReorgOk", "NeverNodeFails", "NeverRootByUrl", "NeverRootUrlBad", "NeverShapedOk", "NeverSecondRunOk", "NeverInplaceOk",
-             "NeverSecondRunAlteredFails")
+             "NeverSecondRunAlteredFails", "NeverDigestOk")
 TRACE_KEYS = ("id", "udsrc", "node", "node_at", "node_n", "node_url", "rootvia", "root_url", "http", "ud_sent",
-              "att_file", "contacted", "g_err", "v_err", "sigsite", "sigclass", "hist", "prev_ok", "dev_prev", "earlier_before",
+              "att_file", "contacted", "g_err", "v_err", "sigsite", "sigclass", "digsite", "digclass", "hist", "prev_ok", "dev_prev", "earlier_before",
               "earlier_after", "verify_prev", "printed_prev", "plat", "alt", "dev", "g_onboard", "g_attest", "gather", "file0", "reload0", "file",
               "reload", "reload_ok", "verify", "printed", "verify2", "printed2")
 
@@ -58,7 +58,7 @@ def _run_one(job):
     except BaseException as e:        # noqa: harness failure, reported as machinery error by the parent
         import traceback
         return i, None, {"harness_error": "%s: %s\n%s" % (type(e).__name__, e, traceback.format_exc()[-1500:])}
-    lite = {"exc": d["exc"], "applied": d["applied"], "faithful": d["faithful"], "shapes": d.get("shapes", {}),
+    lite = {"exc": d["exc"], "applied": d["applied"], "faithful": d["faithful"], "shapes": d.get("shapes", {}), "digests": d.get("digests", {}),
             "env_pages": d.get("env_pages"), "env_len": d.get("env_len"),
             "msg_requests": sum(1 for x in d.get("att_log", []) if x[1] == 0x02),
             "verify_stdout": d["stdout"].get("verify", "")[-1500:] if case.get("keep_stdout") else ""}
@@ -176,6 +176,10 @@ def random_case(rng):
     if rng.random() < 0.3:          # any alteration / network choice may meet any signature shape
         shapes = attflow.SHAPES_SECP if plat == "ledger" else attflow.SHAPES_P256
         b["shape"] = {"site": rng.choice(attflow.SIG_SITES[plat]), "cls": rng.choice(shapes)}
+    if site == "none" and rng.random() < 0.3:          # ... any digest shape
+        dsite = rng.choice(attflow.DIGEST_SITES[plat])
+        if not (dsite == "ak" and cfg["qeauth"] < 4):
+            b["digest"] = {"site": dsite, "cls": rng.choice(attflow.DIGEST_CLASSES)}
     if net["ud"] == "hex" and rng.random() < 0.3:      # ... and any two-run history
         b["hist"] = rng.choice(("reattest", "inplace", "sameout", "reuse0") if plat == "ledger" else ("sameout", "two"))
     c = attflow.concretise(b, rng)
@@ -467,6 +471,16 @@ def run(ctx):
             for comp, cl in zip("rs", shp.split("/")):
                 k = "%s %s %s=%s" % (c["plat"], site, comp, cl)
                 seen[k] = seen.get(k, 0) + 1
+    dground, dseen = {}, {}
+    for (o, d), c in zip(allres, everything):
+        if c.get("digest"):
+            k = "%s %s:%s" % (c["plat"], c["digest"]["site"], c["digest"]["cls"])
+            dground[k] = dground.get(k, 0) + 1
+        for site, cl in d["digests"].items():
+            k = "%s %s=%s" % (c["plat"], site, cl)
+            dseen[k] = dseen.get(k, 0) + 1
+    res.coverage["digest_shapes_ground"] = dict(sorted(dground.items()))
+    res.coverage["digest_classes_seen"] = dict(sorted(dseen.items()))
     res.coverage["signature_shapes_ground"] = dict(sorted(ground.items()))
     res.coverage["signature_component_classes_seen"] = dict(sorted(seen.items()))
     hists = {}
